@@ -13,6 +13,7 @@ import (
 	jr "github.com/evanphx/json-patch/v5/verifharness/jsonref"
 	"github.com/evanphx/json-patch/v5/verifharness/mon"
 	ref "github.com/evanphx/json-patch/v5/verifharness/ref6902"
+	"github.com/evanphx/json-patch/v5/verifharness/refenc"
 )
 
 type LegacyResult struct {
@@ -457,6 +458,91 @@ func init() {
 					judgeV5(c, sc, o, false)
 				}
 				c.Count("options-value-reused:sequences")
+			}},
+			{Name: "v5-copy-to-the-empty-pointer", Exhaustive: true, Count: func(core.Tier) int { return 12 }, Run: func(c *core.Ctx, idx int) {
+				// whatever a copy whose destination is "" does to the document, it is a copy: its size counts
+				val := []string{`"0123456789012345678901234567890123456789"`, `{"k":[1,2,3,4,5,6,7,8,9,10],"s":"xxxxxxxxxxxxxxxxxxxxxxx"}`, `[[[["deep"]]],"aaaaaaaaaaaaaaaaaaaaaaaaaaaaaaaaaaaaaaaaa"]`}[idx%3]
+				doc := `{"a":` + val + `,"b":1}`
+				if (idx/3)%2 == 1 {
+					doc = `[` + val + `,1]`
+				}
+				from := "/a"
+				if doc[0] == '[' {
+					from = "/0"
+				}
+				patch := `[{"op":"copy","from":"` + from + `","path":""}]`
+				if idx/6 == 1 {
+					patch = `[{"op":"copy","from":"` + from + `","path":""},{"op":"copy","from":"","path":"/again"}]`
+				}
+				o := V5Opts{NegIdx: true, EscapeHTML: true, Limit: int64(len(val)) - 1}
+				res := ApplyV5(doc, patch, o, "")
+				c.Eval(1)
+				d := map[string]any{"doc": doc, "patch": patch, "options": o.String(), "library_output": clip(string(res.Out), 500), "library_error": errText(res.Err), "size_of_the_copied_value": len(val)}
+				var ce *jp.AccumulatedCopySizeError
+				switch {
+				case res.Panic != nil:
+					d["panic"] = panicDetail(res.Panic)
+					c.Violation(res.Panic.Sig(), d)
+				case res.Err == nil:
+					c.Violation("copy-to-empty-pointer-not-counted:document-returned-above-the-limit", d)
+				case !errors.As(res.Err, &ce):
+					c.Count("copy-to-root:other-error") // refused for another reason: decides nothing
+				default:
+					c.Count("copy-to-root:limit-error")
+				}
+				c.Nontrivial("copyroot", doc, patch)
+			}},
+			{Name: "v5-one-patch-both-escape-settings", Count: n(2000, 60000), Run: func(c *core.Ctx, idx int) {
+				// one decoded Patch applied with EscapeHTML on and off in turn: what a value of the patch costs when it
+				// is copied depends on the setting of that call only
+				h := []string{"<", ">", "&", "<&>", "a<b"}[c.R.Intn(5)]
+				k := 1 + c.R.Intn(6)
+				val := `{"h":"` + strings.Repeat(h, k) + `","n":[1,2]}`
+				doc := `{"k":1}`
+				patch := `[{"op":"add","path":"/v","value":` + val + `},{"op":"copy","from":"/v","path":"/w"}]`
+				if c.R.Intn(2) == 0 {
+					patch = `[{"op":"replace","path":"/k","value":` + val + `},{"op":"copy","from":"/k","path":"/w"},{"op":"test","path":"/w","value":` + val + `}]`
+				}
+				offSize := int64(len(val))
+				onSize := int64(len(refenc.EscapeRaw(val)))
+				var p jp.Patch
+				var derr error
+				if pn := mon.Try(func() { p, derr = jp.DecodePatch([]byte(patch)) }); pn != nil || derr != nil {
+					c.Inconclusive("pool patch of v5-one-patch-both-escape-settings does not decode")
+					return
+				}
+				order := []bool{true, false, true, false}
+				if c.R.Intn(2) == 0 {
+					order = []bool{false, true, false, true}
+				}
+				for step, esc := range order {
+					size := offSize
+					if esc {
+						size = onSize
+					}
+					lim := size - int64(step%2) // exactly enough, or one byte short
+					lo := V5Opts{NegIdx: true, EscapeHTML: esc, Limit: lim}.Lib()
+					var out []byte
+					var err error
+					pn := mon.Try(func() { out, err = p.ApplyWithOptions([]byte(doc), lo) })
+					c.Eval(1)
+					d := map[string]any{"doc": doc, "patch": patch, "call_number": step + 1, "escape_html": esc, "limit": lim, "size_under_this_setting": size, "library_output": clip(string(out), 400), "library_error": errText(err)}
+					var ce *jp.AccumulatedCopySizeError
+					switch {
+					case pn != nil:
+						d["panic"] = panicDetail(pn)
+						c.Violation(pn.Sig(), d)
+						return
+					case lim >= size && err != nil:
+						c.Violation("reused-patch:limit-error-although-total-within-limit", d)
+						return
+					case lim < size && (err == nil || !errors.As(err, &ce)):
+						c.Violation("reused-patch:no-limit-error-although-total-exceeds-limit", d)
+						return
+					}
+				}
+				c.Count("one-patch-both-settings:ok")
+				c.Nontrivial("both", patch, fmt.Sprint(order))
 			}},
 			{Name: "v5-package-default", Count: n(10000, 400000), Run: func(c *core.Ctx, idx int) {
 				sc := c12Seq(c, true, false)
